@@ -220,6 +220,203 @@ def gen_corrupt(rnd, cases, nlogs, per_log):
             cases.append({'lines': lines, 'tags': {'family': 'corrupt-sampled'}})
 
 
+ESC = {'"': 2, '\\': 2}
+
+
+def enc_entry_len(ts, sec, mid, n, c):
+    """byte length of the entry PersistMessage writes for an event with a pad member of n bytes c (n < 0: none)"""
+    if n < 0:
+        e = enc_entry(ts, sec, mid)
+        return int(e[:e.index(':')])
+    msg = '{"jsonrpc":"2.0","method":"vf::ev","params":{"id":%d,"pad":""},"ts":%d}' % (mid, ts)
+    s = '{"message":"' + msg.replace('\\', '\\\\').replace('"', '\\"') + '"'
+    if sec != '-':
+        s += ',"secobj":{"name":"rl-%s","type":"%s"}' % (sec, TYPE_NAME[sec[0]])
+    s += ',"timestamp":%d}' % ts
+    k = ESC.get(c, 1)
+    return len(s) + n * k * k      # escaped once in the message text, once more in the entry
+
+
+def frame_len(n):
+    return len(str(n)) + 1 + n + 1
+
+
+SIZES_QUICK = [65535, 65536, 65537, 1048575, 1048576, 1048577]
+SIZES_MORE = [4095, 4096, 4097, 8192, 9999, 10000, 99999, 100000, 131071, 131072, 131073, 999999, 1000000,
+              2097152, 4194303, 4194304, 4194305, 9999999, 10000000]
+
+
+def gen_sizes(rnd, cases, tier):
+    """one large entry of an exact byte length (the netstring length prefix), or ending at an exact file offset, at the
+    boundaries of the reader: 4096 (one Read of StreamReadContext::FillFromStream), 64 KiB (one FillFromStream call),
+    1 MiB (the limit for anonymous JSON-RPC peers), 4 MiB, changes of the number of digits of the length prefix;
+    first / in the middle / last in its file; in a rotated file or in current; small entries around it and in the other file"""
+    sizes = list(SIZES_QUICK)
+    if tier != 'quick':
+        sizes += SIZES_MORE
+    plans = []
+    for S in sizes:
+        for pos in ('first', 'middle', 'last'):
+            for where in ('rotated', 'current'):
+                plans.append((S, pos, where, 'entry', 'x'))
+    if tier == 'quick':
+        plans.append((4194304, 'middle', 'rotated', 'entry', 'x'))
+        plans.append((1048576, 'middle', 'current', 'entry', '"'))
+        plans.append((65536, 'first', 'rotated', 'offset', 'x'))
+        plans.append((65536 * 3, 'middle', 'current', 'offset', 'x'))
+        plans.append((1048576, 'last', 'rotated', 'offset', '\\'))
+    else:
+        for S in (65536, 131072, 1048576, 4194304):
+            for d in (-1, 0, 1):
+                for pos in ('first', 'middle', 'last'):
+                    plans.append((S + d, pos, rnd.choice(('rotated', 'current')), 'offset', 'x'))
+        for S in (65536, 1048576, 4194304):
+            for c in ('"', '\\'):
+                for pos in ('first', 'middle', 'last'):
+                    plans.append((S + rnd.choice((-3, 0, 1)), pos, rnd.choice(('rotated', 'current')), 'entry', c))
+    for (S, pos, where, mode, c) in plans:
+        t = T0
+        lines = ['now %d' % t, 'rl_init dur=86400,86400,86400,86400,86400,86400']
+        mid = 0
+        npre = {'first': 0, 'middle': rnd.choice((1, 2, 3)), 'last': rnd.choice((1, 2))}[pos]
+        npost = {'first': rnd.choice((1, 2)), 'middle': rnd.choice((1, 2, 3)), 'last': 0}[pos]
+        nother = rnd.choice((1, 2))
+
+        def small(k):
+            nonlocal t, mid, lines
+            off = 0
+            for _ in range(k):
+                t += rnd.choice((1, 2, 7))
+                mid += 1
+                sec = rnd.choice(SECS)
+                pn = rnd.choice((-1, -1, 0, 1, 17, 300))
+                pad = '' if pn < 0 else ' pad=R%dx%02x' % (pn, ord(rnd.choice('xy "\\')))
+                lines += ['now %d' % t, 'rl_relay sec=%s id=%d%s' % (sec, mid, pad)]
+                pc = chr(int(pad[-2:], 16)) if pad else 'x'
+                off += frame_len(enc_entry_len(t, sec, mid, pn, pc))
+            return off
+
+        def big(before):
+            nonlocal t, mid, lines
+            t += rnd.choice((1, 2, 7))
+            mid += 1
+            sec = rnd.choice(('-', 'om', 'oa', 'ob', 'zm'))
+            k = ESC.get(c, 1) ** 2
+            base = enc_entry_len(t, sec, mid, 0, c)
+            if mode == 'entry':
+                n = max(0, (S - base) // k)
+            else:
+                # the frame ends at file offset S (or as close below it as the escaping allows)
+                n = max(0, (S - before - base - 2 - len(str(S))) // k)
+                while n > 0 and before + frame_len(base + n * k) > S:
+                    n -= 1
+                while before + frame_len(base + (n + 1) * k) <= S:
+                    n += 1
+            lines += ['now %d' % t, 'rl_relay sec=%s id=%d pad=R%dx%02x' % (sec, mid, n, ord(c))]
+
+        if where == 'current':
+            small(nother)
+            t += 3
+            lines += ['now %d' % t, 'rl_rotate']
+        off = small(npre)
+        big(off)
+        small(npost)
+        if where == 'rotated':
+            t += 3
+            lines += ['now %d' % t, 'rl_rotate']
+            small(nother)
+        e = rnd.choice((1, 1, 2, 3, 5))
+        t += rnd.choice((2, 15))
+        lines += ['now %d' % t, 'rl_ls', 'rl_conn e=%d' % e, 'rl_ls']
+        if rnd.random() < 0.4:
+            # the peer confirms, clean-up, a second outage with further events, a second replay
+            t += 5
+            lines += ['rl_ack e=%d p=%d' % (e, t - 5), 'rl_disc e=%d' % e, 'now %d' % t, 'rl_ls', 'rl_timer', 'rl_ls']
+            small(2)
+            t += 2
+            lines += ['now %d' % t, 'rl_ls', 'rl_conn e=%d' % e, 'rl_ls']
+        cases.append({'lines': lines, 'tags': {'family': 'size-boundaries', 'size': S, 'mode': mode, 'pos': pos, 'where': where}})
+
+
+def gen_big_history(rnd, cases, n, tier):
+    """histories with several large entries (restarts, rotations, acknowledgements, clean-up in between)"""
+    for _ in range(n):
+        t = T0
+        durs = [rnd.choice((-1, 600, 3600, 86400)) for _ in range(6)]
+        lines = ['now %d' % t, 'rl_init dur=' + ','.join(map(str, durs))]
+        mid = 0
+        conn = set()
+        for _ in range(rnd.choice((8, 14, 20))):
+            r = rnd.random()
+            if r < 0.5:
+                t += rnd.choice((1, 1, 2, 5, 30))
+                mid += 1
+                pn = rnd.choice((-1, -1, 0, 100, 4096, 4097, 65400, 65536, 70000, 300000, 1048400, 1048576, 1100000) if tier == 'quick'
+                                else (-1, 0, 4096, 65400, 65536, 1048400, 1048576, 1100000, 2500000, 4194304))
+                pad = '' if pn < 0 else ' pad=R%dx%02x' % (pn, ord(rnd.choice('xxxz "\\')))
+                lines += ['now %d' % t, 'rl_relay sec=%s id=%d%s' % (rnd.choice(SECS), mid, pad)]
+            elif r < 0.68:
+                t += rnd.choice((0, 1, 3, 20))
+                e = rnd.choice((1, 2, 3, 4, 5, 6))
+                lines += ['now %d' % t, 'rl_ls', 'rl_conn e=%d' % e, 'rl_ls']
+                conn.add(e)
+            elif r < 0.76:
+                e = rnd.choice((1, 2, 3, 4, 5, 6))
+                lines += ['rl_disc e=%d' % e]
+                conn.discard(e)
+            elif r < 0.86:
+                t += rnd.choice((0, 1, 5))
+                lines += ['now %d' % t, 'rl_rotate', 'rl_ls']
+            elif r < 0.92:
+                t += rnd.choice((0, 1, 5))
+                lines += ['now %d' % t, 'rl_ls', 'rl_restart clean=%d' % rnd.randint(0, 1), 'rl_ls']
+                conn.clear()
+            else:
+                t += rnd.choice((5, 40, 700))
+                if conn:
+                    e = rnd.choice(sorted(conn))
+                    lines += ['rl_ack e=%d p=%d' % (e, t - rnd.choice((1, 30)))]
+                lines += ['now %d' % t, 'rl_ls', 'rl_timer', 'rl_ls']
+        e = rnd.choice((1, 2, 3, 5))
+        t += 2
+        lines += ['now %d' % t, 'rl_ls', 'rl_conn e=%d' % e, 'rl_ls']
+        cases.append({'lines': lines, 'tags': {'family': 'big-history'}})
+
+
+def gen_big_trunc(rnd, cases, n):
+    """a file with a large entry cut inside / right before / right after the large entry: the entries before the cut and
+    the other file are replayed"""
+    for _ in range(n):
+        t = T0
+        lines = ['now %d' % t, 'rl_init dur=86400,86400,86400,86400,86400,86400']
+        mid = 0
+        off = []
+        pos = 0
+        S = rnd.choice((70000, 200000, 1048576, 1500000))
+        for i in range(4):
+            t += rnd.choice((1, 2))
+            mid += 1
+            sec = rnd.choice(('-', 'om', 'oa'))
+            pn = S if i == 2 else -1
+            lines += ['now %d' % t, 'rl_relay sec=%s id=%d%s' % (sec, mid, '' if pn < 0 else ' pad=R%dx78' % pn)]
+            pos += frame_len(enc_entry_len(t, sec, mid, pn, 'x'))
+            off.append(pos)
+        name = t + 1
+        incur = rnd.random() < 0.5
+        if not incur:
+            t += 3
+            lines += ['now %d' % t, 'rl_rotate']
+            for i in range(2):
+                t += 1
+                mid += 1
+                lines += ['now %d' % t, 'rl_relay sec=- id=%d' % mid]
+        k = rnd.choice((off[1] - 1, off[1], off[1] + 1, off[1] + 8, off[1] + 65536, (off[1] + off[2]) // 2, off[2] - 1, off[2], off[2] + 1, off[3] - 1))
+        k = max(0, min(k, off[3]))
+        e = rnd.choice((1, 3, 5))
+        lines += ['now %d' % (t + 2), 'rl_trunc f=%s k=%d' % ('cur' if incur else str(name), k), 'rl_conn e=%d' % e]
+        cases.append({'lines': lines, 'tags': {'family': 'big-truncate'}})
+
+
 def generate(seed, tier):
     rnd = random.Random(seed)
     cases = []
@@ -232,6 +429,9 @@ def generate(seed, tier):
     gen_mirror(rnd, cases, {'quick': 150, 'thorough': 1000, 'search': 300}.get(tier, 150))
     gen_corrupt(rnd, cases, {'quick': 40, 'thorough': 300, 'search': 80}.get(tier, 40), 25)
     gen_corrupt_any(rnd, cases, {'quick': 30, 'thorough': 200, 'search': 60}.get(tier, 30), 25)
+    gen_sizes(rnd, cases, 'quick' if tier in ('quick', 'search') else tier)
+    gen_big_history(rnd, cases, {'quick': 40, 'thorough': 300, 'search': 60}.get(tier, 40), 'quick' if tier in ('quick', 'search') else tier)
+    gen_big_trunc(rnd, cases, {'quick': 20, 'thorough': 150, 'search': 30}.get(tier, 20))
     return cases
 
 
